@@ -8,6 +8,7 @@ import (
 	"reflect"
 	"strconv"
 	"strings"
+	"sync"
 	"time"
 
 	"go.uber.org/dig"
@@ -214,8 +215,11 @@ func resGoType(r Res) reflect.Type {
 }
 
 var structCache = map[string]reflect.Type{}
+var structCacheMu sync.Mutex
 
 func structOf(fields []reflect.StructField) reflect.Type {
+	structCacheMu.Lock()
+	defer structCacheMu.Unlock()
 	var b strings.Builder
 	for _, f := range fields {
 		b.WriteString(f.Name)
@@ -650,6 +654,14 @@ func (w *World) stepCall(i int, op *Op, rec *OpRec) {
 	rec.Verdict = classify(err)
 	if pan != nil {
 		rec.Verdict = VPanic
+	}
+	if err != nil && pan == nil {
+		// rendering an error dig returned must not panic either
+		_, fp := guarded(func() error { _ = err.Error(); _ = fmt.Sprintf("%+v", err); return nil })
+		if fp != nil {
+			rec.Panic = fmt.Sprintf("formatting the returned error panicked: %v", fp)
+			rec.Verdict = VPanic
+		}
 	}
 	if w.trace {
 		desc := "garbage"
